@@ -110,6 +110,9 @@ def analyse(text, label):
             finals[int(f[1])] = (int(f[2]), int(f[3]))
         elif f[0] == "STUCK":
             stuck.append((int(f[1]), int(f[2]), int(f[3]), f[4]))
+            finals.setdefault("incomplete", set()).add(int(f[1]))      # dumped by the watchdog: threads are inside calls
+        elif f[0] == "INCOMPLETE":
+            finals.setdefault("incomplete", set()).add(int(f[1]))      # the record barrier of the harness gave up (10 s)
         elif f[0] == "UNFIRED":
             unfired.append((int(f[1]), int(f[2])))
         elif f[0] == "MULTI":
@@ -290,7 +293,7 @@ def analyse(text, label):
         for (r2, nid) in unfired:
             if r2 == rd:
                 fails.append({"key": "%s:round%d:notify-left-behind:%d" % (label, rd, nid), "label": label, "round": rd,
-                              "what": "notification %d was never run although the group became and stayed empty (3 s)" % nid})
+                              "what": "notification %d was never run although the group became and stayed empty (10 s without any progress)" % nid})
         for (r2, nid, n) in multi:
             if r2 == rd:
                 fails.append({"key": "%s:round%d:notify-multi:%d" % (label, rd, nid), "label": label, "round": rd,
@@ -298,7 +301,7 @@ def analyse(text, label):
         for (r2, k, op, why) in stuck:
             if r2 == rd:
                 fails.append({"key": "%s:round%d:stuck:%d" % (label, rd, k), "label": label, "round": rd,
-                              "what": "thread %d still blocked in %s after 4 s without any progress (%s): a waiter was left "
+                              "what": "thread %d still blocked in %s after 10 s without any progress (%s): a waiter was left "
                                       "behind" % (k, {31: "dispatch_group_wait(FOREVER)", 32: "dispatch_group_wait(timed)",
                                                       30: "dispatch_group_wait(NOW)"}.get(op, "op %d" % op), why)})
     return fails, traces, st, bool(stuck), finals
@@ -544,7 +547,7 @@ def round_order(thr, limit=400000, strict=True):
     return order, True
 
 
-def coq_rounds(name, alltr, allfin, chunk_events=14000, workers=4, timeout=900, period=INV_PERIOD):
+def coq_rounds(name, alltr, allfin, chunk_events=14000, workers=4, timeout=900, period=INV_PERIOD, incomplete=()):
     """alltr: list of (sv, [CEv], round, thread, seed).  One Coq file per chunk of rounds: Group.conform on every thread trace and,
     for every round, GroupR.replay of the whole round on the global model (all threads' events executed on Group.gstep in the
     order of the recorder's stamps).  Returns (conformance results aligned with alltr, dict(mismatches, counts))."""
@@ -606,14 +609,14 @@ def coq_rounds(name, alltr, allfin, chunk_events=14000, workers=4, timeout=900, 
     counts = {"rounds_total": len(keys), "rounds_replayed_on_global_model": 0, "rounds_not_replayed_trace_rejected": 0,
               "rounds_not_replayed_stuck_run": 0, "events_replayed_on_global_model": 0, "replayed_rounds_with_early_notification": 0,
               "invariant_evaluations_false": 0, "early_submissions_in_model_runs": 0,
-              "rounds_replayed_only_without_futex_result_check": 0}
+              "rounds_replayed_only_without_futex_result_check": 0, "rounds_not_replayed_incomplete_record": 0}
     mism, model_early = [], {}
     with ThreadPoolExecutor(max_workers=workers) as ex:
         results = [x for part in ex.map(one, [(ci, part, True) for ci, part in enumerate(chunks)]) for x in part]
     # rounds that do not replay with "a futex_wait that returned 0 was woken by the model" are tried again without that one
     # requirement (GroupR.kernel_ok): where a FUTEX_WAKE took effect between its note and the waker's next event is not recorded
     again = [key for key, conf, rp in results
-             if all(conf[2 * j] == -1 and conf[2 * j + 1] == 1 for j in range(len(byround[key]))) and rp[1] != 0]
+             if key not in incomplete and all(conf[2 * j] == -1 and conf[2 * j + 1] == 1 for j in range(len(byround[key]))) and rp[1] != 0]
     relaxed = set()
     if again:
         second = {key: (conf, rp) for key, conf, rp in one((0, again, False))}
@@ -627,6 +630,9 @@ def coq_rounds(name, alltr, allfin, chunk_events=14000, workers=4, timeout=900, 
             res[idx] = (conf[2 * j], conf[2 * j + 1])
             if conf[2 * j] != -1 or conf[2 * j + 1] != 1:
                 allok = False
+        if key in incomplete:
+            counts["rounds_not_replayed_incomplete_record"] += 1
+            continue
         if not allok:
             counts["rounds_not_replayed_trace_rejected"] += 1
             continue
@@ -673,7 +679,7 @@ def coq_rounds(name, alltr, allfin, chunk_events=14000, workers=4, timeout=900, 
 
 def correspond(ctx):
     nseeds, rounds = (3, 36) if ctx.tier == "quick" else (24, 60)
-    fails, mism, alltr, total, notes, allfin = [], [], [], {}, [], {}
+    fails, mism, alltr, total, notes, allfin, allinc = [], [], [], {}, [], {}, set()
     # fixed corpus first: the deterministic witness of the notify-early defect found on the unchanged tree
     for v in (0, 1):
         early, out = run_early(v)
@@ -702,6 +708,8 @@ def correspond(ctx):
         f, tr, st, was_stuck, fin = analyse(text, "seed%d" % seed)
         fails += f
         alltr += [(sv, t, rd, thr, seed) for (sv, t, rd, thr) in tr]
+        for rd in fin.pop("incomplete", ()):
+            allinc.add((seed, rd))
         for rd, v in fin.items():
             allfin[(seed, rd)] = v
         for k, v in st.items():
@@ -715,9 +723,11 @@ def correspond(ctx):
         mism.append({"what": "a recorded thread trace has %d events inside one round (a thread spinning inside the library)" % len(t),
                      "detail": {"seed": seed, "round": rd, "thread": thr, "trace_tail": [e.brief() for e in t[-12:]]}})
     inv_period = INV_PERIOD if ctx.tier == "quick" else 100
-    res, rep = coq_rounds("c07_rounds", alltr, allfin, period=inv_period)
+    res, rep = coq_rounds("c07_rounds", alltr, allfin, period=inv_period, incomplete=allinc)
     for (i, idle), (sv, t, rd, thr, seed) in zip(res, alltr):
-        if i != -1 or idle != 1:
+        # a trace that is accepted but does not end outside every call is a mismatch only when the round was recorded
+        # completely (the harness dumps a round after its record barrier; a watchdog dump has threads inside calls by design)
+        if i != -1 or (idle != 1 and (seed, rd) not in allinc):
             lo = max(0, i - 12) if i >= 0 else max(0, len(t) - 20)
             mism.append({"what": "a recorded thread trace of the library is not accepted by the model's thread automaton "
                                  "(Group.tstep): the implementation took a step the model does not have",
@@ -755,7 +765,7 @@ def correspond(ctx):
                     "50us-5ms, FOREVER) on one group per round (round kinds: random mix; many simultaneous waiters with short "
                     "timeouts expiring while others keep waiting; notify and enter+notify racing the last leave), many generations "
                     "per round, schedule perturbation inside the library's atomic operations (0/15/40 percent of events), SIGUSR1 "
-                    "storms without SA_RESTART, a 4 s no-progress watchdog; every per-thread, per-round event trace on dg_state / "
+                    "storms without SA_RESTART, a 10 s no-progress watchdog (every wait of the harness is bounded by lack of progress, not by elapsed time) and a record barrier at the end of every round (all leaves' atomic adds recorded, the group's internal reference count back to its creation value); every per-thread, per-round event trace on dg_state / "
                     "dg_gen / dg_notify_head / dg_notify_tail and on the target queue's dq_items_tail recorded by the "
                     "DISPATCH_VERIF hook (a run of NULL loads from dg_notify_head by one spinning thread written once) is replayed through Group.tstep inside Coq; API-level oracle on stamps: wait==0 needs a "
                     "moment in [call, return] where the count could be zero, wait!=0 needs the deadline reached by the library's "
